@@ -14,7 +14,7 @@ LEVEL = 'exploration'
 RULE = ('all 1024 = 2^3 flag x 2^7 feature-subset option values, each built through every '
         'applicable spelling (None / single Feature / tuple / list / set / frozenset); '
         'a case is one option value (kind=value), one row of the 1024x1024 ==/hash matrix '
-        '(kind=row) or one conversion executed under an option value (kind=exec); distinct = '
+        '(kind=row), one conversion executed under an option value (kind=exec) or one function converted under two option values that differ in one field, in sequence (kind=pair); distinct = '
         'distinct (kind, option tuple); non-trivial = every one whose monitor ran at least one comparison')
 ASSUMPTIONS = [
     'Feature enumeration has the 7 members listed in converter.Feature (checked at run time)',
@@ -211,7 +211,9 @@ def check_exec(vals, scratch, idx):
     def __init__(self, function_name, scope_name, options):
       seen.append((function_name, options))
       real.__init__(self, function_name, scope_name, options)
+      callopts.append((function_name, options, getattr(self, 'callopts', None)))
 
+  callopts = []
   ag.FunctionScope = Probe
   try:
     g, _, _ = api._TRANSPILER.transform(m.target, converter.ProgramContext(options=o))
@@ -221,6 +223,11 @@ def check_exec(vals, scratch, idx):
     sys.modules.pop(spec.name, None)
   if res != 4:
     return 1, 'converted function returned %r' % (res,)
+  for fname, opts, co in callopts:
+    # the options a scope hands to the calls made inside it are the call options of the embedded value
+    if co is None or not (co == opts.call_options()) or hash(co) != hash(opts.call_options()):
+      return 1, 'scope of %s embeds %r but calls out with %r, call_options() is %r' % (
+          fname, opts.as_tuple(), co.as_tuple() if co is not None else None, opts.call_options().as_tuple())
   names = [n for n, _ in seen]
   if names != ['target', 'inner']:
     return 1, 'function scopes seen: %r' % (names,)
@@ -231,6 +238,60 @@ def check_exec(vals, scratch, idx):
   if (got[0], got[1], got[2], frozenset(got[3])) != want:
     return 2, 'nested scope reports %r, want call options %r' % (got, want)
   return 2, None
+
+
+def check_exec_pair(v1, v2, scratch, idx):
+  """One function object converted under two option values one after the other (they differ in one field): each
+  conversion must embed its own options, whatever was converted before."""
+  from malt.core import converter
+  from malt.impl import api
+  from malt.operators import function_wrappers
+  import importlib.util
+  path = os.path.join(scratch, 'c20pair_%d.py' % idx)
+  with open(path, 'w') as f:
+    f.write(_EXEC_SRC)
+  spec = importlib.util.spec_from_file_location('c20pair_%d' % idx, path)
+  m = importlib.util.module_from_spec(spec)
+  sys.modules[spec.name] = m
+  spec.loader.exec_module(m)
+  ag = api._TRANSPILER.get_extra_locals()['ag__']
+  real = function_wrappers.FunctionScope
+  seen = []
+
+  class Probe(real):
+
+    def __init__(self, function_name, scope_name, options):
+      seen.append((function_name, options))
+      real.__init__(self, function_name, scope_name, options)
+
+  ag.FunctionScope = Probe
+  n = 0
+  try:
+    o1, o2 = _mk(v1), _mk(v2)
+    g1, _, _ = api._TRANSPILER.transform(m.target, converter.ProgramContext(options=o1))
+    g2, _, _ = api._TRANSPILER.transform(m.target, converter.ProgramContext(options=o2))
+    for g, o, label in ((g2, o2, 'second'), (g1, o1, 'first'), (g2, o2, 'second, again')):
+      del seen[:]
+      if g(3) != 4:
+        return n, 'converted function returned a wrong value'
+      n += 1
+      if not seen or seen[0][0] != 'target':
+        return n, 'no function scope seen'
+      if not (seen[0][1] == o) or hash(seen[0][1]) != hash(o):
+        return n, 'the %s conversion was requested with %r but its scope reports %r (the other conversion used %r)' % (
+            label, o.as_tuple(), seen[0][1].as_tuple(), (o1 if o is o2 else o2).as_tuple())
+  finally:
+    ag.FunctionScope = real
+    sys.modules.pop(spec.name, None)
+  return n, None
+
+
+def neighbours(v, feats_ok):
+  r, u, i, fs = v
+  out = [(not r, u, i, fs), (r, not u, i, fs), (r, u, not i, fs)]
+  for f in feats_ok:
+    out.append((r, u, i, tuple(x for x in fs if x is not f) if f in fs else tuple(fs) + (f,)))
+  return out
 
 
 def run_slice(spec):
@@ -278,6 +339,15 @@ def run_slice(spec):
         yield {'case': case, 'verdict': 'ok', 'sig': case, 'nontrivial': True,
                'counters': {'exec_scope_reports': n, 'exec_conversions': 1},
                'sample': {'kind': 'exec', 'options': _key(v), 'scopes': ['target', 'inner']} if k == 2 else None}
+      feats_ok = [f for f in _features() if f not in bad_feats]
+      for j, v2 in enumerate(neighbours(v, feats_ok)):
+        n, bad = check_exec_pair(v, v2, scratch, k * 16 + j)
+        case = 'pair/%s/%s' % (_key(v), _key(v2))
+        if bad:
+          yield _viol(case, bad, {'kind': 'pair', 'vals': _key(v), 'vals2': _key(v2)})
+        else:
+          yield {'case': case, 'verdict': 'ok', 'sig': case, 'nontrivial': True,
+                 'counters': {'pair_scope_reports': n, 'exec_conversions': 2}}
 
 
 def replay(w):
@@ -285,7 +355,10 @@ def replay(w):
   F = converter.Feature
   r, u, i, names = w['vals']
   vals = (r, u, i, tuple(F[n] for n in names))
-  if w['kind'] == 'value':
+  if w['kind'] == 'pair':
+    r2, u2, i2, names2 = w['vals2']
+    n, bad = check_exec_pair(vals, (r2, u2, i2, tuple(F[n] for n in names2)), os.environ.get('VERIF_SCRATCH', '.'), 0)
+  elif w['kind'] == 'value':
     n, bad = check_value(vals)
   elif w['kind'] == 'row':
     n, bad = check_row(vals, _all_values())
